@@ -98,20 +98,28 @@ def Float.erfc' (x : Float) : Float :=
   else (if x < -27.0 then 2.0 else 2.0 - Float.erfcPos (-x))
 
 /-- `Φ(x) = ½ erfc(−x/√2)`. -/
-def Float.normCdf' (x : Float) : Float := 0.5 * Float.erfc' (-(x / Float.sqrt 2.0))
+def Float.normCdf' (x : Float) : Float :=
+  -- [trunc] the argument is scaled by the constant `½√2` as `jax.scipy.special.ndtr` does (was `x / √2`):
+  -- in the lower tail `Φ` has condition number `x²`, so the two roundings of `x/√2` differ by up to `x²·1e-16`
+  0.5 * Float.erfc' (-(x * 0.70710678118654752440))
 
 /-- `log Φ(x)`; for very negative `x` the asymptotic expansion keeps it finite. -/
 def Float.normLogCdf' (x : Float) : Float :=
   if x > -20.0 then
-    (if x > 5.0 then
-      -- log(1 - ε) with ε = Φ(-x), accurate via log1p-like series
-      (fun (e : Float) => 0.0 - (e + e * e / 2.0 + e * e * e / 3.0)) (Float.normCdf' (-x))
+    (if x > 0.0 then
+      -- [trunc] `log1p(−ε)` with `ε = Φ(−x)` (Kahan: `log w · u / (w − 1)` with `w = 1 + u`); was
+      -- `log Φ(x)` up to `x = 5`, which loses the digits of `ε` (relative error `1e-16/ε`)
+      (fun (u : Float) =>
+        let w := 1.0 + u
+        if w == 1.0 then u else Float.log w * u / (w - 1.0)) (0.0 - Float.normCdf' (-x))
      else Float.log (Float.normCdf' x))
   else
     let x2 := x * x
-    -- Φ(x) ≈ φ(x)/|x| (1 − 1/x² + 3/x⁴ − 15/x⁶ + 105/x⁸)
-    0.0 - (x2 / 2.0) - Float.log (-x) - 0.5 * Float.log (2.0 * 3.14159265358979323846)
-      + Float.log (1.0 - 1.0 / x2 + 3.0 / (x2 * x2) - 15.0 / (x2 * x2 * x2) + 105.0 / (x2 * x2 * x2 * x2))
+    let y := 1.0 / x2
+    -- [trunc] `Φ(x) ≈ φ(x)/|x| (1 − 1/x² + 3/x⁴ − 15/x⁶ + 105/x⁸ − 945/x¹⁰ + 10395/x¹² − 135135/x¹⁴)`; the three
+    -- extra terms bring the truncation error at `x = −20` from `9e-11` down to `3e-15`
+    let ser := 1.0 - y * (1.0 - 3.0 * y * (1.0 - 5.0 * y * (1.0 - 7.0 * y * (1.0 - 9.0 * y * (1.0 - 11.0 * y * (1.0 - 13.0 * y))))))
+    0.0 - (x2 / 2.0) - Float.log (-x) - 0.5 * Float.log (2.0 * 3.14159265358979323846) + Float.log ser
 
 instance : Transc Float where
   log := Float.log
